@@ -191,6 +191,11 @@ type scriptObs struct {
 }
 
 func runScript(c *Case) lib.Result {
+	if !whiteboxAvailable {
+		// built without the white-box group (the hooks do not compile against this tree): not run,
+		// not sent to the model
+		return lib.Result{Obs: &scriptObs{Class: "skipped"}, Tags: []string{"kind:script", "whitebox:unavailable"}}
+	}
 	s := &sink{}
 	hs := makeHandlers(c.Handlers, s)
 	specs := map[int]HSpec{}
@@ -275,7 +280,7 @@ func runScript(c *Case) lib.Result {
 				name := fmt.Sprintf("u%d", op.Inf)
 				switch op.Via {
 				case "direct":
-					ctxs[op.New] = compose.VerifC10AppendHandlers(pctx, info(op.Inf), toH(flat)...)
+					ctxs[op.New] = wbAppendHandlers(pctx, info(op.Inf), toH(flat)...)
 				case "graph":
 					var opts []compose.Option
 					for _, o := range op.Opts {
@@ -283,7 +288,7 @@ func runScript(c *Case) lib.Result {
 					}
 					// an option designated elsewhere must be ignored by initGraphCallbacks
 					opts = append(opts, compose.WithCallbacks(toH([]int{1})...).DesignateNode("elsewhere"))
-					ctxs[op.New] = compose.VerifC10InitGraphCallbacks(pctx, name, opts...)
+					ctxs[op.New] = wbInitGraphCallbacks(pctx, name, opts...)
 				default:
 					key := fmt.Sprintf("k%d", op.New)
 					var opts []compose.Option
@@ -310,7 +315,7 @@ func runScript(c *Case) lib.Result {
 					opts = append(opts, compose.WithCallbacks(toH([]int{1})...),
 						compose.WithCallbacks(toH([]int{1})...).DesignateNode("elsewhere"),
 						compose.WithCallbacks(toH([]int{1})...).DesignateNodeWithPath(compose.NewNodePath(key, "deeper")))
-					ctxs[op.New] = compose.VerifC10InitNodeCallbacks(pctx, key, name, opts...)
+					ctxs[op.New] = wbInitNodeCallbacks(pctx, key, name, opts...)
 				}
 				spec[op.New] = append(append([]int(nil), inherited...), flat...)
 				hasMgr[op.New] = len(spec[op.New])+len(c.Globals) > 0
@@ -403,7 +408,7 @@ func runScript(c *Case) lib.Result {
 			}
 		}
 		for _, u := range order {
-			hl, _, _, ok := compose.VerifC10Peek(ctxs[u])
+			hl, _, _, ok := wbPeek(ctxs[u])
 			ids := []int{}
 			if ok {
 				for _, h := range hl {
